@@ -50,6 +50,9 @@ func altCost(p *vrt.Point) int {
 	if p.Kind == vrt.KindSched && !p.RunEnabled {
 		return 0
 	}
+	if p.Kind == vrt.KindSelect {
+		return 0 // which ready communication a select takes: free, like a switch at a blocking point
+	}
 	return 1
 }
 
